@@ -840,6 +840,7 @@ class FragmentSender(object):
 
         self.fragments = []
         self.acks = []
+        self.seqs = [] # message sequence number of each fragment
 
     def build(self, payload):
 
@@ -875,7 +876,9 @@ class FragmentSender(object):
             cbk = lambda success, idx=index: self.callback(idx, success)
             payload = struct.pack(">HHH", self.frag_id, 1 + index, len(self.fragments))
             payload += self.fragments[index]
-            self.conn._send_type(PacketType.APP_FRAGMENT, payload, self.retry, cbk)
+            # reuse the message sequence number: if the fragment was received
+            # after all, the copy is detected as a duplicate message
+            self.conn._send_type(PacketType.APP_FRAGMENT, payload, self.retry, cbk, self.seqs[index])
         elif self.acks[index] is None:
             self.acks[index] = success
             if None not in self.acks:
@@ -1063,6 +1066,7 @@ class ConnectionBase(object):
 
             for frag, cbk in sender.build(payload):
                 self._send_type(PacketType.APP_FRAGMENT, frag, retry, cbk)
+                sender.seqs.append(self.seq_message)
 
             self.pending_fragments[self.seq_fragment] = sender
 
@@ -1098,13 +1102,16 @@ class ConnectionBase(object):
             if t0 - self.pending_acks[seqnum] >= self.outgoing_timeout:
                 self._handle_timeout(seqnum)
 
-    def _send_type(self, pkt_type, payload, retry, callback):
-        self.seq_message += 1
+    def _send_type(self, pkt_type, payload, retry, callback, seq=None):
+        # seq is only given when a message is sent again
+        if seq is None:
+            self.seq_message += 1
+            seq = self.seq_message
 
         if retry == RetryMode.RETRY_ON_TIMEOUT:
-            callback = RetrySender(self, self.seq_message, pkt_type, payload, callback)
+            callback = RetrySender(self, seq, pkt_type, payload, callback)
 
-        msg = PendingMessage(self.seq_message, pkt_type, payload, callback, retry)
+        msg = PendingMessage(seq, pkt_type, payload, callback, retry)
 
         self.outgoing_messages.append(msg)
         self.stats.sent += 1
